@@ -114,9 +114,11 @@ def _build(name):
 
 
 # (quick runs, thorough runs), calibrated on this box (16 workers): quick ~30-50 s, thorough ~10-15 min
-RUNS = {'C02': (8000, 160000), 'C03': (10000, 200000), 'C04': (2500, 50000), 'C05': (3000, 60000),
-        'C08': (2500, 50000), 'C09': (15000, 300000), 'C10': (5000, 100000), 'C11': (5000, 100000),
-        'C13': (8000, 160000), 'C17': (2000, 40000), 'C18': (10000, 200000), 'C19': (5000, 100000), 'C14': (6000, 120000), 'C12': (5000, 100000), 'C01': (6000, 150000), 'C15': (2500, 50000), 'C16': (6000, 120000), 'C20': (6000, 120000), 'C06': (3000, 60000), 'C07': (1500, 30000)}
+RUNS = {'C01': (10000, 200000), 'C02': (8000, 160000), 'C03': (10000, 200000), 'C04': (2500, 70000),
+        'C05': (3000, 60000), 'C06': (3000, 60000), 'C07': (1500, 30000), 'C08': (2500, 50000),
+        'C09': (18000, 300000), 'C10': (5000, 100000), 'C11': (5000, 100000), 'C12': (10000, 200000),
+        'C13': (8000, 200000), 'C14': (12000, 200000), 'C15': (3500, 60000), 'C16': (15000, 250000),
+        'C17': (2000, 40000), 'C18': (10000, 200000), 'C19': (5000, 100000), 'C20': (12000, 200000)}
 
 
 def get(name):
